@@ -85,6 +85,67 @@ def programs(size, level, **kw):
         raise ValueError(size)
 
 
+QKINDS = ['exists', 'is_file', 'is_dir', 'list_dir', 'walk', 'walkb', 'get_size', 'read', 'readh']
+
+
+def observer_hosts():
+    """Call skeletons with a hole '?' for one single query: the function that
+    holds the query observes nothing else, so nothing masks a stale answer."""
+    q = '?'
+    sb = lambda ch, **kw: dict({'k': 'sb', 'mode': 'ok', 'catch': True, 'args': [1], 'ch': ch}, **kw)
+    bf = lambda p, ch, **kw: dict({'k': 'bf', 'p': p, 'mode': 'ok', 'catch': True, 'ch': ch}, **kw)
+    return [
+        [sb([q])],
+        [bf('a', [q])],
+        [bf('d/y', [q])],
+        [sb([bf('d/y', [q])])],
+        [sb([bf('d/y', [q], mode='rb')])],
+        [sb([q, bf('d/y', [])])],
+        [sb([bf('d/y', []), q])],
+        [sb([bf('d/e/z', [], mode='ra'), q])],
+        [bf('d/x', [sb([q])], wfirst=True)],
+    ]
+
+
+def _fill(stmts, q):
+    out = []
+    for s in stmts:
+        if s == '?':
+            out.append(dict(q))
+        else:
+            s = dict(s)
+            if 'ch' in s:
+                s['ch'] = _fill(s['ch'], q)
+            out.append(s)
+    return out
+
+
+def observer_programs(level=0, hosts=None, kinds=None, paths=None):
+    hs = observer_hosts()
+    for hi, h in enumerate(hs):
+        if hosts is not None and hi not in hosts:
+            continue
+        for kind in (kinds or QKINDS):
+            for p in (paths or (U + [''])):
+                yield {'level': level, 'root': _fill(h, {'k': 'q', 'kind': kind, 'p': p})}
+
+
+def chain_programs(level=0, paths=('a', 'd/x', 'd/e/z'), modes=('ok', 'rb')):
+    """All 3-node programs (5 forest shapes) over a small label set."""
+    yield from programs(3, level, paths=list(paths), bf_modes=list(modes), sb_modes=list(modes), catches=(True,))
+
+
+def family(sp):
+    f = sp.get('family', 'skel')
+    if f == 'skel':
+        return programs(sp['size'], sp['level'], **sp.get('kw', {}))
+    if f == 'observer':
+        return observer_programs(sp['level'], **sp.get('kw', {}))
+    if f == 'chain3':
+        return chain_programs(sp['level'], **sp.get('kw', {}))
+    raise ValueError(f)
+
+
 def prog_paths(prog):
     """Paths a program mentions, their ancestors, and the input file."""
     ps = set(bf_paths(prog['root']))
